@@ -54,6 +54,23 @@ theorem serialize_denotes_sax_tree_partial (e : Xs.Bind.BEnv) (Γ : Xs.Bind.Ctx)
   rw [hdoc]
   exact write_denotes_sax_tree_partial cfg hcfg m hm q attrs kids hcont hshape
 
+/-- **serializers_denote_same_tree (partial)**: under the same hypotheses and the explicit assumption
+about lxml (`LxmlBuildsSaxTree`), `XmlSerializer(writer=XmlEventWriter)` and
+`XmlSerializer(writer=LxmlEventWriter)` write documents that denote the same tree. -/
+theorem serializers_denote_same_tree_partial (lxmlRead : List Call → Option Node) (hl : LxmlBuildsSaxTree lxmlRead)
+    (e : Xs.Bind.BEnv) (Γ : Xs.Bind.Ctx) (scfg : Xs.Bind.SerCfg)
+    (v : Xs.Bind.Val) (cfg : Cfg) (hcfg : plainCfg cfg = true)
+    (m : List (Pfx × Str)) (hm : userMapOK tblNsEnv m = true)
+    (evs : List Xs.Bind.Ev) (es : List Ev)
+    (hg : Xs.Bind.generate e Γ scfg v = .ok evs) (hc : convEvs evs = some es)
+    (hok : eventsOK tblNsEnv (userDefault m) es = true) :
+    ∃ toks calls t, nativeWrite tblNsEnv cfg m es = .ok toks
+      ∧ handlerRun tblNsEnv cfg false m es = (calls, none)
+      ∧ infoset toks = some t ∧ lxmlRead calls = some t := by
+  obtain ⟨q, attrs, kids, hdoc, hcont, hshape⟩ := generated_document tblNsEnv (userDefault m) e Γ scfg v evs es hg hc hok
+  rw [hdoc]
+  exact writers_denote_same_tree_partial lxmlRead hl cfg hcfg m hm q attrs kids hcont hshape
+
 /-- values that need no namespace context (no QName values, no `{…}` attribute strings) -/
 def eventsPlain (es : List Ev) : Bool :=
   es.all (fun ev => match ev with
